@@ -26,6 +26,7 @@ use crate::{
         OnePassSignature, PacketHeader, PacketTrait, PublicKeyEncryptedSessionKey, SignatureHasher,
         SignatureType, SignatureVersionSpecific, Subpacket, SubpacketData,
         SymEncryptedProtectedData, SymEncryptedProtectedDataConfig, SymKeyEncryptedSessionKey,
+        MAX_PARTIAL_LEN,
     },
     ser::Serialize,
     types::{
@@ -766,7 +767,8 @@ impl<'a, R: Read, E: Encryption> Builder<'a, R, E> {
     ///
     /// Due to the restrictions on partial packet lengths, this size
     /// - must be larger than `512`,
-    /// - must be a power of 2.
+    /// - must be a power of 2,
+    /// - must be at most `2^30`.
     ///
     /// Defaults to [`DEFAULT_PARTIAL_CHUNK_SIZE`].
     pub fn partial_chunk_size(&mut self, size: u32) -> Result<&mut Self> {
@@ -774,6 +776,11 @@ impl<'a, R: Read, E: Encryption> Builder<'a, R, E> {
         ensure!(
             size.is_power_of_two(),
             "partial chunk size must be a power of two"
+        );
+        ensure!(
+            size <= MAX_PARTIAL_LEN,
+            "partial chunk size must be at most {}",
+            MAX_PARTIAL_LEN
         );
         self.partial_chunk_size = size;
         Ok(self)
